@@ -59,7 +59,7 @@ def run_one(drv, prop, ops, kw):
     monitor.FAILURES.clear()
     err = None
     try:
-        viol = drv.run_history(ops)
+        viol = drv.run_history(ops, props=(prop,))
     except Exception:
         viol = []
         err = traceback.format_exc()[-600:]
